@@ -14,11 +14,12 @@ class C01(ProbeMixin, HistProp):
             'pool at the end; non-trivial = at least two state-changing steps; distinct by (ops, seed)')
     trusted_base = [
         'Coq 8.16.1 kernel (coqc; vm_compute for evaluating cases; no native_compute)',
-        'harness/world.py (runner, object-graph dumper, audits A1-A2, probes), harness/histgen.py, Run/SCore.v',
+        'harness/world.py + harness/sworld.py (runners, object-graph dumpers, audits A1-A2, probes), harness/histgen.py, Run/SCore.v, Run/SSeries.v',
         'Spec/Table.v, Spec/Ops.v: the hand-written positional reference model (the "plain list-of-rows model" of the property)',
     ]
     assumptions = [
-        'Series payload columns are not in the modelled alphabet; they are followed through derivation chains by Python-side probes',
+        '20% of the histories run on tables with SeriesColumns through the pseudo-column encoding of Spec/SeriesEnc.v '
+        '(numbers only; tables compared up to name order); Python-side series payload probes in addition',
         'random operations take the permutation the implementation produced as an oracle argument, validated in Coq',
     ]
 
